@@ -200,6 +200,11 @@ func c15Judge(c spec.Case, evs []spec.Event, d *Death) CaseResult {
 						viol("exited-false", "the killing client reports Exited()=false")
 					}
 				}
+				for i, ex := range s.AllExited {
+					if !ex {
+						viol("other-client-not-exited", fmt.Sprintf("8 s after %s killed the plugin, client %d of the same plugin still reports Exited()=false", s.Step, i))
+					}
+				}
 				alive = false
 			} else {
 				if !s.Serving {
@@ -211,6 +216,11 @@ func c15Judge(c spec.Case, evs []spec.Event, d *Death) CaseResult {
 				res.Counters["testmode_kills"]++
 			}
 		case "sigkill":
+			for i, ex := range s.AllExited {
+				if !ex {
+					viol("other-client-not-exited", fmt.Sprintf("8 s after the plugin was killed by a signal, client %d still reports Exited()=false", i))
+				}
+			}
 			alive = false
 		case "cancel":
 			if !s.ClosedCh {
